@@ -207,9 +207,11 @@ def run_check(prop, tier, seed):
         "wall_s": round(time.time() - t0, 2),
         "violations": n_viol,
     }
-    os.makedirs(os.path.join(VERIF_DIR, "evidence"), exist_ok=True)
+    # development aid: VERIF_EVIDENCE_DIR redirects the evidence file (the registered commands do not set it)
+    evidence_dir = os.environ.get("VERIF_EVIDENCE_DIR") or os.path.join(VERIF_DIR, "evidence")
+    os.makedirs(evidence_dir, exist_ok=True)
     if not only:
-        with open(os.path.join(VERIF_DIR, "evidence", "%s.json" % prop), "w") as f:
+        with open(os.path.join(evidence_dir, "%s.json" % prop), "w") as f:
             json.dump(evidence, f, indent=1, sort_keys=True)
 
     for sig, c in sorted(known_hit.items()):
